@@ -195,6 +195,18 @@ func c04BigVars() []fhirpath.EvaluateOption {
 	return []fhirpath.EvaluateOption{evalopts.EnvVariable("big", big), evalopts.EnvVariable("bigmixed", mixed), evalopts.EnvVariable("unit1", system.String("mg")), evalopts.EnvVariable("spare", c04Spare()), evalopts.EnvVariable("uniq", system.String("zq-base"))}
 }
 
+// c04BuiltinNames: names a custom function may not take (every base-table name as first read, plus fixed ones that do not
+// depend on what the table holds today).
+var c04BuiltinNames = func() []string {
+	names := []string{"where", "convertToDateTime", "convertsToDateTime", "exists", "toString", "iif", "substring"}
+	for _, t := range readTable() {
+		if !t.Experimental {
+			names = append(names, t.Name)
+		}
+	}
+	return names
+}()
+
 // c04Spare: three items in a backing array of eight (appending to a sub-slice of it writes into the caller's array).
 var c04SpareShared = append(make(system.Collection, 0, 8), system.String("a"), system.String("b"), system.String("c"))
 
@@ -567,7 +579,8 @@ func c04Compile(env *core.Env, rng *core.Rng, digest0 string) {
 					co = append(co, compopts.AddFunction(name, goodCustom), compopts.AddFunction(name, goodCustom))
 					wantErr = true
 				case 2:
-					co = append(co, compopts.AddFunction("where", goodCustom))
+					// any built-in name (the deprecated spelling convertToDateTime included)
+					co = append(co, compopts.AddFunction(c04BuiltinNames[lr.Intn(len(c04BuiltinNames))], goodCustom))
 					wantErr = true
 				case 3:
 					co = append(co, compopts.WithExperimentalFuncs(), compopts.AddFunction(name, goodCustom))
